@@ -1218,6 +1218,7 @@ class RTCSctpTransport(AsyncIOEventEmitter):
         loss = False
         if chunk.gaps:
             seen = set()
+            highest_seen_tsn = chunk.cumulative_tsn
             for gap in chunk.gaps:
                 for pos in range(gap[0], gap[1] + 1):
                     highest_seen_tsn = (chunk.cumulative_tsn + pos) % SCTP_TSN_MODULO
